@@ -267,11 +267,21 @@ func scenarioC02(r *Run) {
 		case 2, 3: // establishment
 			sh := SessShape{UEAlloc: r.Ch.Choose(2, "ua") == 1, TEIDChoose: r.Ch.Choose(2, "ch") == 1, NQER: r.Ch.Choose(3, "nq"), ExtraPDRs: r.Ch.Choose(3, "ex")}
 			s := g.Session(p, sh)
+			var twin *CPSession
 			switch r.Ch.Choose(6, "cpseid") {
 			case 1:
 				s.CPSEID = 0xFFFFFFFFFFFFFFFF - uint64(len(sent))
 			case 2:
 				s.CPSEID = uint64(r.Ch.Choose(1<<30, "cpseidv"))<<20 + uint64(len(sent)) + 1
+			case 3:
+				// the SEID value of a live session of this association again, inside a
+				// CP F-SEID with another CP address (several SMF instances behind one N4
+				// address number their sessions independently; a CP that restarted starts
+				// at 1 again): a session of its own all the same
+				if len(sessions) > 0 && p.Associated {
+					twin = sessions[r.Ch.Choose(len(sessions), "twin")]
+					s.CPSEID, s.CPAddr = twin.CPSEID, ip4("10.250.7.7")
+				}
 			}
 			badNode := p.Associated && r.Ch.Choose(8, "badnode") == 1
 			saved := p.NodeID
@@ -300,6 +310,23 @@ func scenarioC02(r *Run) {
 				r.Accepted++
 				checkEstResponse(r, p, s, resp)
 				p.Establish2(s, resp)
+				if twin != nil {
+					r.Probe("two-live-sessions-with-one-cp-seid-value")
+					r.Skel("est:twin-cp-seid")
+					if s.UPSEID == twin.UPSEID {
+						r.Violate("C02", "up-fseid-shared-by-two-sessions", "the establishment of a second session whose CP F-SEID has the SEID value %d of a live session (another CP address) was answered with that session's UP F-SEID %d: the F-SEID no longer addresses one session", s.CPSEID, s.UPSEID)
+						break
+					}
+					// the model keys sessions by CP SEID: the older twin leaves (by a
+					// deletion addressed with its own UP F-SEID), the new one stays
+					dm := p.DeleteMsg(twin.UPSEID)
+					setSeq(dm, seqFor(p))
+					if drx := send(p, dm, "SessionDeletionRequest", 1); drx != nil {
+						if dc, _ := CauseOf(drx.Msg); dc != ie.CauseRequestAccepted {
+							r.Violate("C02", "twin-session-not-addressable", "after a second session with the same CP SEID value was established, the first one (UP F-SEID %d) can no longer be deleted: cause %d", twin.UPSEID, dc)
+						}
+					}
+				}
 			} else {
 				if expectAccept {
 					r.Probe("valid-establishment-rejected")
